@@ -137,7 +137,8 @@ unsafe impl<T> TrustedLen for std::collections::vec_deque::Iter<'_, T> {}
 /// # Fields
 ///
 /// * `iter`: The wrapped iterator.
-/// * `len`: The known length of the iterator.
+/// * `len`: The number of items the iterator has still to yield; it is counted
+///   down as items are taken from either end, so `size_hint` stays exact.
 #[derive(Clone)]
 pub struct TrustIter<I: Iterator> {
     iter: I,
@@ -162,9 +163,15 @@ where
 
     #[inline]
     fn next(&mut self) -> Option<Self::Item> {
-        self.iter.next()
+        let item = self.iter.next();
+        if item.is_some() {
+            // keep the announced length in step with what is left to yield
+            self.len = self.len.saturating_sub(1);
+        }
+        item
     }
 
+    #[inline]
     fn size_hint(&self) -> (usize, Option<usize>) {
         (self.len, Some(self.len))
     }
@@ -178,7 +185,11 @@ where
 {
     #[inline]
     fn next_back(&mut self) -> Option<Self::Item> {
-        self.iter.next_back()
+        let item = self.iter.next_back();
+        if item.is_some() {
+            self.len = self.len.saturating_sub(1);
+        }
+        item
     }
 }
 
